@@ -66,6 +66,11 @@ class Rendered(Model):
     self.ms = ms
     self.order = order
     self.text = text
+    self.is_sorted = False
+
+  def py_sort(self, ip):
+    # list.sort() in place, no key: from now on the list is sorted(list)
+    self.is_sorted = True
 
 
 class StrList(Model):
@@ -88,7 +93,7 @@ def make_interp(ctx, index):
     if isinstance(arg, StrList):
       return JOIN(arg.term)
     if isinstance(arg, Rendered):
-      return JOIN(IN_ORDER(arg.ms, arg.order))
+      return JOIN(SORTED(arg.ms)) if arg.is_sorted else JOIN(IN_ORDER(arg.ms, arg.order))
     raise EngineError("join(%r)" % (arg,))
   ip.ext[('method', 'join')] = join
   ip.ext['str_concat'] = lambda ip2, a, b: CONCAT(TAtom.enc(ip2, a), TAtom.enc(ip2, b))
@@ -204,6 +209,16 @@ def u_parse_carbon(ctx, index):
       return PyList([o])
     raise EngineError("split(%r, %r)" % (sep, maxsplit))
   ip.ext[('method', 'split')] = split
+
+  def partition(ip2, o, sep):
+    # A-STR: s.partition('=') == (head, '=', tail) with [head, tail] == s.split('=', 1) when '=' in s, else (s, '', '')
+    if sep != '=':
+      raise EngineError("partition(%r)" % (sep,))
+    o = TAtom.enc(ip2, o)
+    if ip2.ctx.branch(SEG_HAS_EQ(o), "'=' in segment"):
+      return (SEG_TAG(o), '=', SEG_VAL(o))
+    return (o, '', '')
+  ip.ext[('method', 'partition')] = partition
   ip.ext[('truth', 'Atom')] = lambda ip2, v: z3.Not(LEN0(v))
   ip.ext[('method', 'lstrip')] = lambda ip2, o, chars: LSTRIP_TILDE(TAtom.enc(ip2, o)) if chars == '~' else (_ for _ in ()).throw(EngineError('lstrip'))
   ip.ext[('len', 'Atom')] = lambda ip2, v: z3.If(LEN0(v), 0, 1)          # only compared with 0
